@@ -22,7 +22,7 @@ def main():
         args = args[:i] + args[i + 2:]
     results = {}
     for d in args:
-        d = Path(d)
+        d = Path(d).resolve()
         meta = json.loads((d / "meta.json").read_text())
         prop = meta["property"]
         st = sh("git -C /repo status --short")
